@@ -1,14 +1,14 @@
 #!/bin/bash
 # usage: tools/seed_confirm.sh <dir with patch.diff demo.rs meta.json> <seed-name> <check ids...>
 # 1. in a scratch worktree of /repo: clean tree -> demo passes; patched -> suite (33 tests) passes and demo fails
-# 2. apply the patch to /repo, run the named checks, undo; report which checks raise VIOLATION
+# 2. run the named checks against the patched worktree (VERIF_REPO override; /repo is not touched); report which raise VIOLATION
 # 3. on success copy the seed to /verif/seeded/<seed-name>/ and append what was run to meta.json
 set -u
 SRC="$1"; NAME="$2"; shift 2
 WT=/tmp/wt_confirm_$$
 export CARGO_NET_OFFLINE=true
 git -C /repo worktree add -q --detach "$WT" HEAD || exit 2
-trap 'git -C /repo worktree remove --force "$WT" >/dev/null 2>&1; git -C /repo checkout -- . 2>/dev/null' EXIT
+trap 'git -C /repo worktree remove --force "$WT" >/dev/null 2>&1' EXIT
 mkdir -p "$WT/tests"; cp "$SRC/demo.rs" "$WT/tests/seed_demo.rs"
 (cd "$WT" && cargo test --offline --test seed_demo >/tmp/seed_clean_$$.log 2>&1); CLEAN=$?
 (cd "$WT" && git apply "$SRC/patch.diff") || { echo "patch does not apply"; exit 2; }
@@ -18,16 +18,16 @@ NPASS=$(grep -o "[0-9]* passed" /tmp/seed_suite_$$.log | head -1)
 echo "demo on clean tree: exit $CLEAN (want 0); suite with patch: exit $SUITE ($NPASS); demo with patch: exit $PATCHED (want != 0)"
 rm -f /tmp/seed_*_$$.log
 if [ $CLEAN -ne 0 ] || [ $SUITE -ne 0 ] || [ $PATCHED -eq 0 ]; then echo "SEED REJECTED"; exit 1; fi
-git -C /repo apply "$SRC/patch.diff" || exit 2
+# the checks run against the patched scratch worktree (VERIF_REPO), /repo itself is never touched
+rm -rf "$WT/tests"
 RES=""
 for id in "$@"; do
-  out=$(cd /verif && ./check "$id" --tier quick 2>&1 | grep -E "^(VIOLATION|OK|KNOWN)" | head -3)
+  out=$(cd /verif && VERIF_REPO="$WT" ./check "$id" --tier quick 2>&1 | grep -E "^(VIOLATION|OK|KNOWN)" | head -3)
   echo "  [$id] $out"
   if echo "$out" | grep -q "^VIOLATION"; then
     if echo "$out" | grep -q "no-failing-input-found"; then RES="$RES $id:caught-nofail"; else RES="$RES $id:caught"; fi
   else RES="$RES $id:missed"; fi
 done
-git -C /repo checkout -- .
 mkdir -p /verif/seeded/$NAME; cp "$SRC/patch.diff" "$SRC/demo.rs" /verif/seeded/$NAME/
 python3 - "$SRC/meta.json" "/verif/seeded/$NAME/meta.json" "$RES" "$NPASS" <<'PY'
 import json,sys
